@@ -215,6 +215,11 @@ pub struct CoreCfg<'a> {
     pub expect_exact: bool,
     pub tail_cap: usize,
     pub clause_prefix: &'a str,
+    /// crash/restart: after call number k (1-based) replace the decoder by a snapshot copy of kind
+    /// 1 = Clone, 2 = rmp-serde round trip
+    pub snap: Option<(u32, i64)>,
+    /// C16: compare DecompressorOxide::adler32() with the bytewise definition after every call
+    pub adler_probe: bool,
 }
 
 /// Drive the core decoder over `m` with the schedule `ops` = [[deliver, budget], ...]; budget < 0 means
@@ -261,6 +266,7 @@ pub fn run_core(m: &[u8], cfg: &CoreCfg, ops: &[Vec<i64>], st: &mut Stats) -> Re
     let mut tail_calls = 0usize;
     let mut susp = 0u32;
     let mut saw_failed = false;
+    let mut running_adler = 1u32;
     let cp = cfg.clause_prefix;
     let term;
     loop {
@@ -326,7 +332,35 @@ pub fn run_core(m: &[u8], cfg: &CoreCfg, ops: &[Vec<i64>], st: &mut Stats) -> Re
         sink.extend_from_slice(&out[out_pos..out_pos + w]);
         consumed += c;
         out_pos = if cfg.ring.is_some() { (out_pos + w) & mask } else { out_pos + w };
-        if cfg.probe {
+        if cfg.adler_probe && cfg.zlib && (cfg.extra_flags & TINFL_FLAG_IGNORE_ADLER32) == 0 && (s as i32) >= 0 {
+            running_adler = refinf::adler32_def(running_adler, &sink[sink.len() - w..]);
+            if let Some(a) = r.adler32() {
+                if a != running_adler {
+                    return viol("C16.decoder_running_adler", format!("after call {} ({:?}): DecompressorOxide::adler32() = {:#010x}, Adler-32 of the {} bytes produced so far = {:#010x}", calls, s, a, sink.len(), running_adler));
+                }
+                st.inc("probe.decoder_adler_probes");
+            }
+        }
+        if let Some((k, kind)) = cfg.snap {
+            if calls == k {
+                // the node is killed here and restarted from what was "durable"
+                let restored = match kind {
+                    2 => {
+                        let img = rmp_serde::to_vec(&r).expect("HARNESS: serialise");
+                        let back: DecompressorOxide = rmp_serde::from_slice(&img).expect("HARNESS: deserialise");
+                        back
+                    }
+                    _ => r.clone(),
+                };
+                drop(r);
+                r = restored;
+                st.inc(if kind == 2 { "fault.crash_restart_serde" } else { "fault.crash_restart_clone" });
+                if cfg.probe && calls <= 64 {
+                    st.inc(&format!("probe.snapshot_in.{}", state_name(&r)));
+                }
+            }
+        }
+        if cfg.probe && calls <= 64 {
             let name = state_name(&r);
             let exit = match s {
                 TINFLStatus::NeedsMoreInput => "in",
@@ -416,6 +450,11 @@ pub fn mz_code(r: &Result<MZStatus, MZError>) -> i32 {
 /// {None, Partial, Sync, Block} until everything is delivered; `finish_tail` switches to Finish once all
 /// input has been delivered (and keeps it).
 pub fn run_inflate(m: &[u8], fmt: DataFormat, ops: &[Vec<i64>], finish_tail: bool, first_finish: bool, tail_cap: usize, st: &mut Stats, cp: &str) -> Result<DecRun, Violation> {
+    run_inflate_snap(m, fmt, ops, finish_tail, first_finish, tail_cap, st, cp, None)
+}
+
+#[allow(clippy::too_many_arguments)]
+pub fn run_inflate_snap(m: &[u8], fmt: DataFormat, ops: &[Vec<i64>], finish_tail: bool, first_finish: bool, tail_cap: usize, st: &mut Stats, cp: &str, snap: Option<u32>) -> Result<DecRun, Violation> {
     let mut state = InflateState::new_boxed(fmt);
     let n = m.len();
     let mut delivered = 0usize;
@@ -474,6 +513,12 @@ pub fn run_inflate(m: &[u8], fmt: DataFormat, ops: &[Vec<i64>], finish_tail: boo
         }
         sink.extend_from_slice(&outbuf[..res.bytes_written]);
         consumed += res.bytes_consumed;
+        if snap == Some(calls) {
+            let copy = state.clone();
+            drop(state);
+            state = copy;
+            st.inc("fault.crash_restart_clone_inflate_state");
+        }
         let progressed = res.bytes_consumed > 0 || res.bytes_written > 0;
         match res.status {
             Ok(MZStatus::StreamEnd) => {
@@ -716,6 +761,8 @@ pub fn exec(s: &Script, st: &mut Stats) -> Result<RunInfo, Violation> {
         expect_exact: v.verdict == Verdict::Valid,
         tail_cap,
         clause_prefix: cp,
+        snap: None,
+        adler_probe: s.c("adler_probe") != 0,
     };
     let mut hh = Hasher::new();
     let mut nontrivial = !s.faults.is_empty();
@@ -890,7 +937,7 @@ pub fn exec(s: &Script, st: &mut Stats) -> Result<RunInfo, Violation> {
             if clauses & CL_C07 != 0 && v.verdict == Verdict::Valid && v.prehistory_reads == 0 {
                 // "for valid streams the result is also the same across modes and entry points":
                 // compare with the one-call run of the core decoder on a flat buffer.
-                let fcfg = CoreCfg { zlib, ring: None, ring_init: &[], flat_cap: v.out.len() + 1, hasmore: 0, extra_flags, canary: false, probe: false, expect: &v.out, expect_exact: true, tail_cap: 4, clause_prefix: cp };
+                let fcfg = CoreCfg { zlib, ring: None, ring_init: &[], flat_cap: v.out.len() + 1, hasmore: 0, extra_flags, canary: false, probe: false, expect: &v.out, expect_exact: true, tail_cap: 4, clause_prefix: cp, snap: None, adler_probe: false };
                 let b = run_core(&m, &fcfg, &[], st)?;
                 if r.out != b.out {
                     return viol("C07.output_equal", format!("[inflate()] output differs from the one-call flat run (lengths {} vs {})", r.out.len(), b.out.len()));
